@@ -31,8 +31,9 @@ FUNCTIONS = [
 BOUNDS = {
     "quick": "all 2^(H*W)-1 masks (>=1 unmasked pixel) of every shape with H*W <= 9 (kernels) / <= 8 (classes); 1D masks of length <= 6; "
              "native/slim values, both storage modes: symbolic reals; plus listed larger masks (1D lengths 17-40, 2D up to 5x6) and "
-             "C / Fortran / transposed-view memory layouts of the mask",
-    "thorough": "all masks of every shape with H*W <= 12 (kernels and classes); 1D masks of length <= 8",
+             "C / Fortran / transposed-view memory layouts of the mask; re-masking by a second mask: shifted/flipped copies of every mask, "
+             "and every PAIR of masks of shapes with <= 5 pixels",
+    "thorough": "all masks of every shape with H*W <= 12 (kernels and classes); 1D masks of length <= 8; every pair of masks of shapes <= 8 pixels",
     "merged": "additionally the slim/native/index kernels with the mask bits left symbolic (merge interpreter, ONE path = all 2^(H*W) masks "
               "and all real values): shape 3x4 (quick) plus 4x4, 3x5 (thorough; 5x5 did not finish within 30 min)",
 }
@@ -117,6 +118,62 @@ def case_kernels_2d(ctx, H, W, layout="C"):
     inputs = {"mask": mask, "v": V.real_array("v", (H, W)), "g": V.real_array("g", (H, W, 2)),
               "s": V.real_array("s", (H * W,)), "gs": V.real_array("gs", (H * W, 2))}
     hx.run_body(ctx, body_kernels_2d, inputs, {"H": H, "W": W, "layout": layout}, validate_every=16)
+
+
+def _remask_part(inp, H, W, mask, m, v, g, A, E):
+    import autoarray as aa
+    # re-masking (seed C01-j): a structure on mask m is cut down by ANOTHER mask m2 of the same shape - the result's native
+    # form holds the source's values at their ORIGINAL positions (zero where either mask masks), its slim form lists them
+    # in row-major order of m2. m2 is an input when the case forks it, otherwise shifted copies of m (equal counts).
+    seconds = []
+    if "mask2" in inp:
+        seconds.append(("m2", np.array(inp["mask2"], dtype=bool).reshape(H, W)))
+    else:
+        seconds.append(("roll_x", np.roll(np.array(mask), 1, axis=1)))
+        seconds.append(("roll_y", np.roll(np.array(mask), 1, axis=0)))
+        seconds.append(("flip", np.array(mask)[::-1, ::-1].copy()))
+    for nm2, mk2 in seconds:
+        if mk2.all():
+            continue
+        m2 = aa.Mask2D(mask=mk2, pixel_scales=(1.0, 2.0))
+        pos2 = _ref(mk2)
+        for sn in (False, True):
+            tag = "_sn%d.remask_%s" % (sn, nm2)
+            keep = lambda p: (not mask[p])
+            e_nat = np.zeros((H, W), dtype=object)
+            for p in pos2:
+                e_nat[p] = v[p] if keep(p) else 0.0
+            src = aa.Array2D(values=v.copy(), mask=m, store_native=sn)
+            r = hx.attempt(lambda: src.apply_mask(mask=m2))
+            A["Array2D" + tag + ".native"] = hx.attempt(lambda: r.native.array) if not isinstance(r, hx.Raised) else r
+            E["Array2D" + tag + ".native"] = e_nat
+            A["Array2D" + tag + ".slim"] = hx.attempt(lambda: r.slim.array) if not isinstance(r, hx.Raised) else r
+            E["Array2D" + tag + ".slim"] = np.array([e_nat[p] for p in pos2], dtype=object)
+            e_gn = np.zeros((H, W, 2), dtype=object)
+            for p in pos2:
+                if keep(p):
+                    e_gn[p][0], e_gn[p][1] = g[p][0], g[p][1]
+            srcv = aa.VectorYX2D(values=g.copy(), mask=m, store_native=sn, grid=aa.Grid2D.from_mask(mask=m))
+            rv = hx.attempt(lambda: srcv.apply_mask(mask=m2))
+            A["VectorYX2D" + tag + ".native"] = hx.attempt(lambda: rv.native.array) if not isinstance(rv, hx.Raised) else rv
+            E["VectorYX2D" + tag + ".native"] = e_gn
+            A["VectorYX2D" + tag + ".slim"] = hx.attempt(lambda: rv.slim.array) if not isinstance(rv, hx.Raised) else rv
+            E["VectorYX2D" + tag + ".slim"] = np.array([[e_gn[p][0], e_gn[p][1]] for p in pos2], dtype=object).reshape(len(pos2), 2)
+            # a new structure built from the masked source's native form on the second mask
+            r2 = hx.attempt(lambda: aa.Grid2D(values=aa.Grid2D(values=g.copy(), mask=m, store_native=sn).native, mask=m2))
+            A["Grid2D" + tag + ".native"] = hx.attempt(lambda: r2.native.array) if not isinstance(r2, hx.Raised) else r2
+            E["Grid2D" + tag + ".native"] = e_gn
+
+
+def body_remask_2d(inp, H, W):
+    import autoarray as aa
+    mask = np.array(inp["mask"], dtype=bool).reshape(H, W)
+    v = np.asarray(inp["v"]).reshape(H, W)
+    g = np.asarray(inp["g"]).reshape(H, W, 2)
+    m = aa.Mask2D(mask=mask, pixel_scales=(1.0, 2.0))
+    A, E = {}, {}
+    _remask_part(inp, H, W, mask, m, v, g, A, E)
+    return A, E
 
 
 def body_classes_2d(inp, H, W, layout="C"):
@@ -257,6 +314,7 @@ def body_classes_2d(inp, H, W, layout="C"):
                 E["%s%s.native_after_inplace_update" % (cname, tag)] = exp_nat
                 A["%s%s.slim_after_inplace_update" % (cname, tag)] = hx.attempt(lambda: o.slim.array) if not isinstance(r, hx.Raised) else r
                 E["%s%s.slim_after_inplace_update" % (cname, tag)] = exp_slim
+    _remask_part(inp, H, W, mask, m, v, g, A, E)
     di = m.derive_indexes
     A["native_for_slim"] = hx.attempt(lambda: np.asarray(di.native_for_slim))
     E["native_for_slim"] = np.array(pos, dtype=float).reshape(n, 2)
@@ -273,6 +331,15 @@ def case_classes_2d(ctx, H, W, layout="C"):
     inputs = {"mask": mask, "v": V.real_array("v", (H, W)), "g": V.real_array("g", (H, W, 2)),
               "s": V.real_array("s", (H * W,)), "gs": V.real_array("gs", (H * W, 2)), "c": V.real("c")}
     hx.run_body(ctx, body_classes_2d, inputs, {"H": H, "W": W, "layout": layout}, validate_every=32)
+
+
+def case_remask_2d(ctx, H, W):
+    """both masks forked independently (seed C01-j)"""
+    mask = _sym_mask(ctx, (H, W))
+    mask2 = _sym_mask(ctx, (H, W), name="n")
+    ctx.set_case(mask=mask.tolist(), mask2=mask2.tolist())
+    inputs = {"mask": mask, "mask2": mask2, "v": V.real_array("v", (H, W)), "g": V.real_array("g", (H, W, 2))}
+    hx.run_body(ctx, body_remask_2d, inputs, {"H": H, "W": W}, validate_every=64)
 
 
 def body_1d(inp, N):
@@ -365,7 +432,7 @@ def case_listed_2d(ctx, name, layout="C", kind="kernels"):
     hx.run_body(ctx, body, inputs, {"H": H, "W": W, "layout": layout}, validate_every=1)
 
 
-BODIES = {"case_kernels_2d": body_kernels_2d, "case_classes_2d": body_classes_2d, "case_1d": body_1d}
+BODIES = {"case_kernels_2d": body_kernels_2d, "case_classes_2d": body_classes_2d, "case_1d": body_1d, "case_remask_2d": body_remask_2d}
 
 
 def _cases(tier):
@@ -379,6 +446,11 @@ def _cases(tier):
                 out.append(("case_kernels_2d", {"H": H, "W": W}, sp))
             if n <= cap_c:
                 out.append(("case_classes_2d", {"H": H, "W": W}, sp))
+    cap_r = 5 if tier == "quick" else 8
+    for H in range(1, 8):
+        for W in range(1, 8):
+            if 2 <= H * W <= cap_r:
+                out.append(("case_remask_2d", {"H": H, "W": W}, {"split": 0 if H * W < 6 else (4 if H * W < 8 else 6)}))
     for N in range(1, cap_1 + 1):
         out.append(("case_1d", {"N": N}))
     for nm in LISTED_1D:
